@@ -335,14 +335,13 @@ class BitSet(BaseBitSet):
         if newlength > curlength:
             self.bits.extend((0,) * (newlength - curlength))
         elif newlength < curlength:
-            del self.bits[newlength + 1:]
+            del self.bits[newlength:]
 
     def _zero_extra_bits(self, size):
         bits = self.bits
         spill = size - ((len(bits) - 1) * 8)
-        if spill:
-            mask = 2 ** spill - 1
-            bits[-1] = bits[-1] & mask
+        mask = 2 ** spill - 1
+        bits[-1] = bits[-1] & mask
 
     def _logic(self, obj, op, other):
         objbits = obj.bits
@@ -417,6 +416,7 @@ class BitSet(BaseBitSet):
             discard(n)
 
     def invert_update(self, size):
+        self._resize(size)
         bits = self.bits
         for i in xrange(len(bits)):
             bits[i] = ~bits[i] & 0xFF
